@@ -27,6 +27,7 @@ sequence numbers, any order. -/
 def OpOk : Op → Prop
   | .park _ _ _ => True
   | .take _ => True
+  | .resetAll => True
   | _ => False
 instance : (op : Op) → Decidable (OpOk op)
   | .park _ _ _ => by unfold OpOk; exact inferInstance
@@ -34,6 +35,7 @@ instance : (op : Op) → Decidable (OpOk op)
   | .add _ _ => by unfold OpOk; exact inferInstance
   | .off _ => by unfold OpOk; exact inferInstance
   | .reset => by unfold OpOk; exact inferInstance
+  | .resetAll => by unfold OpOk; exact inferInstance
 
 /-- The configuration: limits are non-negative Go `int`s. -/
 def CfgOk (_maxSlots maxBytes : Int) : Prop := 0 ≤ maxBytes ∧ maxBytes ≤ Go.I64MAX
@@ -293,6 +295,56 @@ theorem step_take (m : St) (s : S) (seq : Int) (hR : R m s) :
     rw [hstep]
     exact ⟨s, spec_take_miss s seq _ _ _ _ _ _ hl htot, a, G, c1, c2, hpk, hgone, hbuf, hidx⟩
 
+/-- `SlotSequencer.Reset()` with whatever is parked, followed by `DiscardAll()`: nothing is parked any more, the save
+area is empty, what was only readable is still readable, and the sequencer is as good as new (coupled to the monitor
+with no packet and no discarded prefix). -/
+theorem step_resetAll (m : St) (s : S) (hR : R m s) :
+    ∃ s', Spec.Slots.step s .resetAll (Model.Slots.step m .resetAll).2 = some s' ∧
+          R (Model.Slots.step m .resetAll).1 s' := by
+  obtain ⟨a, G, c1, c2, hpk, hgone, hbuf, hidx⟩ := hR
+  obtain ⟨hd, hs, hr⟩ := hbuf
+  -- DiscardAll on a buffer whose save area is `flat s.parked`
+  have hda : ∃ b, m.buf.discardAll = some b ∧ BufOk b [] s.readable := by
+    unfold Buf.discardAll Buf.discard Buf.saveLen
+    by_cases h0 : m.buf.si ≤ 0
+    · dsimp only
+      rw [if_pos h0]
+      have hnil : flat s.parked = [] := List.eq_nil_of_length_eq_zero (by omega)
+      refine ⟨m.buf, rfl, ?_, ?_, hr⟩
+      · rw [hd, hnil]
+      · rw [hs, hnil]
+    · dsimp only
+      rw [if_neg h0]
+      have hwi : m.buf.wi = ((flat s.parked).length + s.readable.length : Nat) := by
+        unfold Buf.wi; rw [hd, List.length_append]
+      rw [if_pos ⟨Int.le_refl 0, by rw [hwi, hs]; omega⟩]
+      refine ⟨_, rfl, ?_, ?_, ?_⟩
+      · dsimp only
+        rw [hs, hd]
+        simp
+      · dsimp only; rw [hs]; simp
+      · dsimp only
+        rw [hr, hs, hd]
+        simp
+        omega
+  obtain ⟨b, hb, hbok⟩ := hda
+  have hstep : Model.Slots.step m .resetAll = ({ m with buf := b, sq := m.sq.reset }, .unit) := by
+    show (match m.buf.discardAll with | none => (m, Obs.panic) | some b => ({ m with buf := b, sq := m.sq.reset }, Obs.unit)) = _
+    rw [hb]
+  rw [hstep]
+  refine ⟨{ s with parked := [], gone := 0 }, rfl, fun _ => 0, [], c1, c2, rfl, (psum_zero _).symm, hbok, ?_⟩
+  constructor
+  · exact hidx.nLo
+  · exact hidx.nHi
+  · show ((m.sq.tree.reset).length : Int) = _
+    rw [reset_length]; exact hidx.treeLen
+  · exact List.Pairwise.nil
+  · intro e; simp [Seqr.reset]
+  · rfl
+  · exact List.Pairwise.nil
+  · rfl
+  · exact off_reset _
+
 /-- One workflow step of the implementation model is accepted by the monitor and preserves the coupling. -/
 theorem step_refines (m : St) (s : S) (op : Op) (hR : R m s) (hop : OpOk op) :
     ∃ s', Spec.Slots.step s op (Model.Slots.step m op).2 = some s' ∧ R (Model.Slots.step m op).1 s' := by
@@ -302,6 +354,7 @@ theorem step_refines (m : St) (s : S) (op : Op) (hR : R m s) (hop : OpOk op) :
   | add _ _ => exact absurd hop id
   | off _ => exact absurd hop id
   | reset => exact absurd hop id
+  | resetAll => exact step_resetAll m s hR
 
 theorem run_accepted (m : St) (s : S) (ops : List Op) (hR : R m s) (hops : ∀ op ∈ ops, OpOk op) :
     accepts s (run m ops) = true := by
@@ -328,8 +381,9 @@ theorem R_init (maxSlots maxBytes : Int) (h : CfgOk maxSlots maxBytes) :
   · exact off_new maxBytes
 
 /-- **C20 (main theorem).** For every pair of limits and every interleaving of `park` (any sequence
-numbers in any order, duplicates, every size including empty packets, limits hit or not) and `take` (parked or not,
-in any order, draining the sequencer or never draining it), everything the implementation model
+numbers in any order, duplicates, every size including empty packets, limits hit or not), `take` (parked or not,
+in any order, draining the sequencer or never draining it) and `resetAll` (`SlotSequencer.Reset()` + `DiscardAll()` with
+whatever is parked, after which the sequencer is used again), everything the implementation model
 returns is accepted by the parked-packets monitor: the slot `Pop` returns, applied to the save area
 as it is at that moment, addresses exactly the bytes saved under that number; discarding it removes
 exactly those bytes and leaves every other parked packet in place; duplicates are rejected without
@@ -512,6 +566,7 @@ instance : (op : Op) → Decidable (OpOkOff op)
   | .add _ _ => by unfold OpOkOff; exact inferInstance
   | .off _ => by unfold OpOkOff; exact inferInstance
   | .reset => by unfold OpOkOff; exact inferInstance
+  | .resetAll => by unfold OpOkOff; exact inferInstance
 
 theorem spec_add (s : S) (bytes : Bytes) (n i l : Int) (err : Bool) (i' l' : Int) (saved : Bytes)
     (h1 : err = true → IndexSpaceUsedUp s)
@@ -734,6 +789,7 @@ theorem step_refines_off (m : St) (s : S) (op : Op) (hR : Roff m s) (hop : OpOkO
   | add bytes n => exact step_add m s bytes n hR
   | off h => exact step_off m s h hR
   | reset => exact step_reset m s hR
+  | resetAll => exact absurd hop id
 
 theorem run_accepted_off (m : St) (s : S) (ops : List Op) (hR : Roff m s) (hops : ∀ op ∈ ops, OpOkOff op) :
     accepts s (run m ops) = true := by
